@@ -19,7 +19,7 @@ func init() {
 		Rule: "one case = (MTU, payloader, abs-send-time off / id 1 / 14 (one-byte form) / 15 / 255 (two-byte form), start configuration of sequencer + random initial timestamp + clock, sequence of Packetize / SkipSamples / GeneratePadding calls); a recording payloader wraps the real one so that the oracle knows the fragments; non-trivial = at least one call returned two or more packets",
 		Assumptions: []string{
 			"MTU {64,65,100,267,1200,65535}; payloaders G711, G722, Opus, H264, H265, VP8 with picture ids, VP9 flexible, AV1 with inputs shaped for each; start configurations (sequencer start, initial timestamp via the random seam) in {(0,0),(1234,0xFFFFFC40),(65534,0xFFFFFFFF),(65535,0x01020304)}; clock answers through the verif seam from instants around the 64 s wrap of the 24-bit field",
-			"call alphabet: Packetize(len in {1,B-1,B,B+1,2B,3B+5}, samples in {0,1,960,2^32-1}) (B = MTU-12), SkipSamples {0,1,2^31,2^32-1}, GeneratePadding {0,1,2}, EnableAbsSendTime {0,1,15} (reconfiguration between calls): all sequences of depth 2 over the full alphabet, depth 3 (thorough 4) over a 15-call sub-alphabet; MTU 1200 and 65535 use lengths {1,B,B+1} and depth 2",
+			"call alphabet: Packetize(len in {1,B-1,B,B+1,2B,3B+5,E,2E}, samples in {0,1,960,2^32-1}) (B = MTU-12, E = B less the room of the abs-send-time extension configured at that point, so that the last fragment fills its packet), SkipSamples {0,1,2^31,2^32-1}, GeneratePadding {0,1,2}, EnableAbsSendTime {0,1,15} (reconfiguration between calls): all sequences of depth 2 over the full alphabet, depth 3 (thorough 4) over a 15-call sub-alphabet; MTU 1200 and 65535 use lengths {1,B,B+1} and depth 2",
 			"long runs: all sequences of 5 (quick) / 7 (thorough) calls over {Packetize(B+1,960), Packetize(1,1), SkipSamples(2^31), GeneratePadding(1), Packetize(300*B+7, 90000)} for MTU {64,100} x {G711, H264, VP8} x abs-send-time off/id 1 x 4 start configurations: trains of more than 256 packets and sequences that cross the 16-bit wrap in the middle of a train",
 			"Opus ignores the MTU by design: the size clause applies to Opus only when the payload fits the budget",
 		},
@@ -128,15 +128,15 @@ type c06Op struct {
 
 func c06Alphabet(full, bigMTU bool) []c06Op {
 	var ops []c06Op
-	lens := []int{0, 1, 2, 3, 4, 5}
+	lens := []int{0, 1, 2, 3, 4, 5, 7, 8}
 	samples := []uint32{0, 1, 960, 0xFFFFFFFF}
 	skips := []uint32{0, 1, 1 << 31, 0xFFFFFFFF}
 	pads := []uint32{0, 1, 2}
 	if !full {
-		lens, samples, skips, pads = []int{0, 2, 3, 5}, []uint32{1, 0xFFFFFFFF}, []uint32{1, 1 << 31}, []uint32{1, 2}
+		lens, samples, skips, pads = []int{0, 2, 3, 5, 7}, []uint32{1, 0xFFFFFFFF}, []uint32{1, 1 << 31}, []uint32{1, 2}
 	}
 	if bigMTU {
-		lens = []int{0, 2, 3}
+		lens = []int{0, 2, 3, 7}
 	}
 	for _, l := range lens {
 		for _, s := range samples {
@@ -255,7 +255,20 @@ func c06Drive(c *mc.Ctx, mtu, pi, absID int, start c06Start, ops []c06Op) {
 	for _, op := range ops {
 		switch op.kind {
 		case 0:
-			n := lenOf[op.lenIdx]
+			n := 0
+			if op.lenIdx < 7 {
+				n = lenOf[op.lenIdx]
+			} else {
+				// relative to what is left once the abs-send-time extension (as configured at
+				// this point) has its room: the last fragment fills its packet exactly
+				eb := B
+				if absID != 0 && absID <= 14 {
+					eb = B - 8
+				} else if absID != 0 {
+					eb = B - 12
+				}
+				n = (op.lenIdx - 6) * eb
+			}
 			in := c06Payloaders[pi].shape(n)
 			trace = append(trace, fmt.Sprintf("Packetize(%dB,%d)", n, op.samples))
 			before := len(rec.calls)
